@@ -286,7 +286,7 @@ def canon(t, depth=0):
         if base[0] == "downcast":
             inner = strip(base[1])
             if base[2] == "Continue" and inner[0] == "call" and inner[1].endswith("::ops::Try>::branch"):
-                return "try(%s)" % canon(inner[2][0], d)
+                return _try_value(inner[2][0], d)
             if base[2] in ("Some", "Ok", "Err", "Break") and t[2] == "0":
                 return "%s!(%s)" % (base[2].lower(), canon(base[1], d))
             return "(%s as %s).%s" % (canon(base[1], d), base[2], t[2])
@@ -345,6 +345,31 @@ def canon(t, depth=0):
     if tag == "unknown":
         return "?%s" % t[1]
     return str(t)
+
+
+def _try_value(x, d):
+    """The value of `x?` on its continuing side.  `Ok(v)?` / `Some(v)?` is v; an alternative that is a literal `Err(..)`,
+    `None` or an error handed on by `from_residual` never continues (this is what a helper that returns a Result
+    looks like once it is read at its call site)."""
+    x = strip(x)
+    if x[0] == "agg" and x[1] == "adt" and isinstance(x[2], str):
+        if (x[2].endswith("::Ok") or x[2].endswith("::Some")) and len(x[3]) == 1:
+            return canon(x[3][0][1], d)
+    if x[0] == "phi":
+        keep = []
+        for a in x[1]:
+            a_ = strip(a)
+            if a_[0] == "agg" and a_[1] == "adt" and isinstance(a_[2], str) and (a_[2].endswith("::Err") or a_[2].endswith("::None")):
+                continue
+            if a_[0] == "call" and isinstance(a_[1], str) and a_[1].endswith("::from_residual"):
+                continue
+            keep.append(_try_value(a_, d))
+        keep = sorted(set(keep))
+        if len(keep) == 1:
+            return keep[0]
+        if keep:
+            return "phi(%s)" % " | ".join(keep)
+    return "try(%s)" % canon(x, d)
 
 
 _INT_TY = re.compile(r"^[iu](8|16|32|64|128|size)$")
